@@ -254,3 +254,9 @@ pub(crate) fn debug_print_object_forwarding_info<VM: VMBinding>(object: ObjectRe
         }
     )
 }
+
+/// Verification hook: the `pub(super)` [`forwarding_bits_offset_in_forwarding_pointer`].
+#[cfg(feature = "mmtk_verif")]
+pub fn verif_forwarding_bits_offset<VM: VMBinding>() -> Option<isize> {
+    forwarding_bits_offset_in_forwarding_pointer::<VM>()
+}
